@@ -23,9 +23,9 @@ CHECK = {
     "packages": ["./internal/net"],
     "harness": ["internal/net/zz_verif_c23.go"],
     "entries": [
-        {"fn": P + "vC23_roundtrip", "replay": MO, "cases_quick": {"nameLen": [1, 2, 4], "payloadLen": [0, 1, 3]}, "cases_thorough": {"nameLen": [1, 2, 3, 4, 5, 6], "payloadLen": [0, 1, 2, 3, 4, 5]}, "cover_optional": ("frame>=12",)},
+        {"fn": P + "vC23_roundtrip", "replay": MO, "cases_quick": {"nameLen": [1, 2, 4], "payloadLen": [0, 1, 3]}, "cases_thorough": {"nameLen": [1, 2, 3, 6], "payloadLen": [0, 1, 2, 5]}, "cover_optional": ("frame>=12",)},
         {"fn": P + "vC23_roundtrip_md", "replay": MO, "cases_quick": {"nameLen": [3], "payloadLen": [0, 2], "headers": [0, 1, 2, 3], "keyLen": [0, 2], "valLen": [1]},
-         "cases_thorough": {"nameLen": [1, 4], "payloadLen": [0, 3], "headers": [0, 1, 2, 3], "keyLen": [0, 1, 3], "valLen": [0, 2]}},
+         "cases_thorough": {"nameLen": [1, 4], "payloadLen": [0, 3], "headers": [0, 1, 2, 3], "keyLen": [0, 3], "valLen": [0, 2]}},
         {"fn": P + "vC23_metadata", "replay": MO, "cases": {"headers": [0, 1, 2]}, "opts": {"sym_slice_cap": 34}},
         {"fn": P + "vC23_deadline", "replay": MO, "opts": {"substitute": dict(SUBST, **{"time.Now": P + "vC23_now"})}},
         {"fn": P + "vC23_concat", "replay": MO, "cases_quick": {"nameLen": [1, 3], "payloadLen": [0, 2], "firstWithMetadata": [0, 1]}, "cases_thorough": {"nameLen": [1, 2, 3, 5], "payloadLen": [0, 1, 2, 4], "firstWithMetadata": [0, 1]}},
@@ -36,9 +36,9 @@ CHECK = {
         {"fn": P + "vC23_robust_response", "replay": MO, "cases_quick": {"maxLen": [24]}, "cases_thorough": {"maxLen": [32]}},
         {"fn": P + "vC23_robust_read", "replay": MO, "cases_quick": {"maxLen": [24]}, "cases_thorough": {"maxLen": [32]}},
         {"fn": P + "vC23_robust_server", "replay": MO, "cases_quick": {"maxLen": [18]}, "cases_thorough": {"maxLen": [24]}, "opts": {"substitute": SERVER, "sym_slice_cap": 32}},
-        {"fn": P + "vC23_detect", "replay": MO, "cases_quick": {"nameLen": [1, 2, 3, 4], "payloadLen": [0, 1, 3]}, "cases_thorough": {"nameLen": [1, 2, 3, 4, 5, 6], "payloadLen": [0, 1, 2, 3, 4, 5]}},
+        {"fn": P + "vC23_detect", "replay": MO, "cases_quick": {"nameLen": [1, 2, 3, 4], "payloadLen": [0, 1, 3]}, "cases_thorough": {"nameLen": [1, 2, 3, 4, 6], "payloadLen": [0, 1, 3, 5]}},
         {"fn": P + "vC23_detect_md", "replay": MO, "cases_quick": {"nameLen": [1, 4], "payloadLen": [0, 1, 3], "withMetadata": [0, 1]},
-         "cases_thorough": {"nameLen": [1, 2, 3, 4, 5], "payloadLen": [0, 1, 2, 3, 4], "withMetadata": [0, 1]}},
+         "cases_thorough": {"nameLen": [1, 3, 5], "payloadLen": [0, 2, 4], "withMetadata": [0, 1]}},
         {"fn": P + "vC23_bucket", "opts": {"unwind": 66}},
         {"fn": P + "vC23_pool", "cases_quick": {"n": [0, 256, 257], "m": [300]}, "cases_thorough": {"n": [0, 1, 255, 256, 257, 512, 513, 1024], "m": [0, 1, 300, 512]}},
     ],
